@@ -36,10 +36,12 @@ def hasInfix (pat : Bytes) : Bytes → Bool
 /-- what precedes a token on its own line / in the file (letters):
     (E — a backslash earlier on the line — was a class until the lexer was repaired to advance by the
       source text of a string instead of its value)
-    L a long bracket ([[ or [=) earlier on the line or a multi-line token ends on this line
-    A a character outside the BMP (4-byte UTF-8) earlier on the line
-    N another non-ASCII byte earlier on the line (2-byte sequences are treated as GBK; 3-byte ones
-      count as one column each — exact — unless mixed; flagged conservatively)
+    L a long bracket ([[ or [=) earlier on the line or a multi-line token ends on this line (computed, no longer a
+      class: the line start behind a long bracket was repaired)
+    A a character outside the BMP (4-byte UTF-8) earlier on the line (computed, no longer a class: the lexer counts
+      UTF-16 units since the repair)
+    N the lead byte of a two-byte UTF-8 sequence earlier on the line (a string containing one is taken for GBK;
+      three- and four-byte sequences alone are exact)
     R an LF CR pair somewhere before (counted as ONE line break by the lexer, two by LSP)
     M the token starts on a line where a multi-line construct (long string/comment, backslash-newline
       in a string) ended -/
@@ -49,7 +51,7 @@ def lineClasses (doc : Bytes) (off : Nat) : String :=
   let before := doc.take off
   (if hasInfix [91, 91] pre || hasInfix [91, 61] pre || hasInfix [93, 93] pre || hasInfix [61, 93] pre then "L" else "") ++
   (if pre.any (· ≥ 0xF0) then "A" else "") ++
-  (if pre.any (fun b => b ≥ 0x80 && b < 0xF0) then "N" else "") ++
+  (if pre.any (fun b => b ≥ 0xC0 && b < 0xE0) then "N" else "") ++   -- the lead byte of a two-byte sequence
   (if hasInfix [10, 13] before then "R" else "")
 
 end LuaHelper.Col
